@@ -383,7 +383,10 @@ def run_unit(unit_name, template_rel, variant):
             hit = [b for b in pblocks if re.search(r"error\[E0(502|499|503|506|505)\]", b) and re.search(r"^\s*%d\s*\|" % ln, b, re.M)]
             other = [b for b in pblocks if not re.search(r"error\[E0(502|499|503|506|505)\]", b) and "aborting due to" not in b]
             if must_be_free:
-                # the converse probe: a mutable use of the cell right before the foreign call must be ACCEPTED
+                # the converse probe: a mutable use of the cell right before the foreign call must be ACCEPTED.
+                # E0382 at the probe line (the handle was already MOVED, e.g. into the inner observer) also
+                # means "free": a live borrow of the handle would have made that move itself an error (E0505)
+                other = [b for b in other if not (re.search(r"error\[E0382\]", b) and re.search(r"^\s*%d\s*\|" % ln, b, re.M))]
                 if hit:
                     res["borrow_probes"].append(dict(probe=pname, status="LENT at a call that may re-enter the cell"))
                     if owner in res["functions"]:
